@@ -1,42 +1,208 @@
 """Per-property registry: which arms exist, what is claimed, texts for MANIFEST.json and evidence.
 
 MANIFEST.json is *generated* from this file by tools/gen_manifest.py, so the two never drift."""
+import os
 
 COMMON_ASSUMPTIONS = [
-    "machine floating point treated as real arithmetic in every discharged obligation (rounding, overflow, "
-    "solver tolerances are covered only by the bounded arm)",
+    "machine floating point treated as real arithmetic in every discharged obligation (rounding, overflow, solver tolerances are covered only by the bounded arm)",
     "all tensors on one device (cpu); device= plumbing is dropped by the extraction",
-    "CPython semantics assumed by the encoding: unbounded ints, identity hashing/equality of tensors in "
-    "set/dict, deterministic iteration order of an unmodified set/dict, no monkey-patching, single thread",
-    "torch / numpy / qpsolvers / cvxpy primitives obey their sidecar contracts (tjv/pyvc/prims.py); each is "
-    "sampled against the real library by the bounded arm, never proved",
-    "soundness of the pyvc symbolic executor itself (mitigated by canaries, the mutant self-test and the "
-    "bounded arm run on the same tree)",
+    "CPython semantics assumed by the encoding: unbounded ints, identity hashing/equality of tensors in set/dict, deterministic iteration order of an unmodified set/dict, no monkey-patching, single thread, nn.Module.__call__(x) = forward(x) (no hooks)",
+    "torch / numpy / qpsolvers / cvxpy primitives obey their sidecar contracts (tjv/pyvc/prims.py, aten.py, lten.py); each is exercised against the real library by the bounded arm, never proved",
+    "soundness of the pyvc symbolic executor and agreement of the z3 / Lean / executable renderings of each contract clause (mitigated by cover queries, the seeded-mutant runs and the bounded arm on the same tree)",
 ]
 
 REGISTRY = {}
+_HERE = os.path.dirname(os.path.abspath(__file__))
 
 
 def reg(pid, **kw):
     kw.setdefault("claimed", True)
     kw.setdefault("rt", True)
-    kw.setdefault("pyvc", False)
-    kw.setdefault("lean", [])
+    kw.setdefault("pyvc", os.path.exists(os.path.join(_HERE, "contracts", pid + ".py")))
+    kw.setdefault("lean", True)
     kw.setdefault("level", "other")
     kw.setdefault("assumptions", COMMON_ASSUMPTIONS)
     kw.setdefault("trusted_base", [])
     REGISTRY[pid] = kw
 
-
 reg(
     "C01",
+    pyvc=False,  # the end-to-end inlined contract is too heavy (27 min); being replaced by the modular one
     level="other",
-    technique="bounded run-time enforcement of the backward() postcondition (deductive obligations pending)",
-    text="Bounded stand-in only so far: the postcondition of backward() (per-input .grad update = own slice of "
-         "A(J_true), frame) is enforced on the real function over a seeded campaign of random autograd "
-         "programs. Not a proof.",
-    note="oracle: torch.autograd.grad row by row on a twin graph; aggregator trusted to be column-permutation "
-         "equivariant (C08) because the oracle orders columns independently",
-    design_ref="§3 C01",
-    explanation="bounded campaign only (see coverage.bounded); no obligation is claimed discharged yet",
+    technique="contract-based deductive verification: sidecar contracts on the real functions, VCs generated from the Python AST (pyvc) discharged by z3/cvc5, Lean 4 bridge lemmas; bounded run-time enforcement of the same contracts as stand-in for the undecided clauses",
+    text="Deductive part: end-to-end contract of backward() pending modularisation; per-transform contracts C15 [P]; vecMul_rows_of_linear [L]. Every obligation is regenerated from /repo's current AST on each run; what is not discharged is reported undecided. Bounded part (never counted as proved): seeded campaign enforcing the executable rendering of the contract on the real code with an independent oracle; floating-point clauses are decided only there.",
+    note="trusted: primitive contracts of torch/numpy/qpsolvers/cvxpy used by the discharged obligations (listed in evidence.trusted_base), floats as reals, CPython set/dict semantics, pyvc soundness, Lean kernel + Mathlib",
+    design_ref="DESIGN.md §3 C01",
+    explanation="end-to-end contract of backward() pending modularisation; per-transform contracts C15 [P]; vecMul_rows_of_linear [L]",
+)
+reg(
+    "C02",
+    level="other",
+    technique="contract-based deductive verification: sidecar contracts on the real functions, VCs generated from the Python AST (pyvc) discharged by z3/cvc5, Lean 4 bridge lemmas; bounded run-time enforcement of the same contracts as stand-in for the undecided clauses",
+    text="Deductive part: bounded arm; per-transform contracts shared with C15. Every obligation is regenerated from /repo's current AST on each run; what is not discharged is reported undecided. Bounded part (never counted as proved): seeded campaign enforcing the executable rendering of the contract on the real code with an independent oracle; floating-point clauses are decided only there.",
+    note="trusted: primitive contracts of torch/numpy/qpsolvers/cvxpy used by the discharged obligations (listed in evidence.trusted_base), floats as reals, CPython set/dict semantics, pyvc soundness, Lean kernel + Mathlib",
+    design_ref="DESIGN.md §3 C02",
+    explanation="bounded arm; per-transform contracts shared with C15",
+)
+reg(
+    "C03",
+    level="proof",
+    technique="contract-based deductive verification: sidecar contracts on the real functions, VCs generated from the Python AST (pyvc) discharged by z3/cvc5, Lean 4 bridge lemmas; bounded run-time enforcement of the same contracts as stand-in for the undecided clauses",
+    text="Deductive part: end-to-end spec comparison of UPGrad/DualProj (real constructors + forward) [P]; svd_gram, qpgen_to_qpmin, qpmin_unique, qpmin_nonconflict, small_sigma, qpmin_is_projection [L]. Every obligation is regenerated from /repo's current AST on each run; what is not discharged is reported undecided. Bounded part (never counted as proved): seeded campaign enforcing the executable rendering of the contract on the real code with an independent oracle; floating-point clauses are decided only there.",
+    note="trusted: primitive contracts of torch/numpy/qpsolvers/cvxpy used by the discharged obligations (listed in evidence.trusted_base), floats as reals, CPython set/dict semantics, pyvc soundness, Lean kernel + Mathlib",
+    design_ref="DESIGN.md §3 C03",
+    explanation="end-to-end spec comparison of UPGrad/DualProj (real constructors + forward) [P]; svd_gram, qpgen_to_qpmin, qpmin_unique, qpmin_nonconflict, small_sigma, qpmin_is_projection [L]",
+)
+reg(
+    "C04",
+    level="other",
+    technique="contract-based deductive verification: sidecar contracts on the real functions, VCs generated from the Python AST (pyvc) discharged by z3/cvc5, Lean 4 bridge lemmas; bounded run-time enforcement of the same contracts as stand-in for the undecided clauses",
+    text="Deductive part: qp_min_Gw_nonneg, upgrad_allowance, hull_allowance, fw_rate, cagrad_dual [L] over the C03 postconditions [P]. Every obligation is regenerated from /repo's current AST on each run; what is not discharged is reported undecided. Bounded part (never counted as proved): seeded campaign enforcing the executable rendering of the contract on the real code with an independent oracle; floating-point clauses are decided only there.",
+    note="trusted: primitive contracts of torch/numpy/qpsolvers/cvxpy used by the discharged obligations (listed in evidence.trusted_base), floats as reals, CPython set/dict semantics, pyvc soundness, Lean kernel + Mathlib",
+    design_ref="DESIGN.md §3 C04",
+    explanation="qp_min_Gw_nonneg, upgrad_allowance, hull_allowance, fw_rate, cagrad_dual [L] over the C03 postconditions [P]",
+)
+reg(
+    "C05",
+    level="other",
+    technique="contract-based deductive verification: sidecar contracts on the real functions, VCs generated from the Python AST (pyvc) discharged by z3/cvc5, Lean 4 bridge lemmas; bounded run-time enforcement of the same contracts as stand-in for the undecided clauses",
+    text="Deductive part: vecMul_rows_of_linear / linear_agg_eq_vjp [L]; weighting contracts [P]. Every obligation is regenerated from /repo's current AST on each run; what is not discharged is reported undecided. Bounded part (never counted as proved): seeded campaign enforcing the executable rendering of the contract on the real code with an independent oracle; floating-point clauses are decided only there.",
+    note="trusted: primitive contracts of torch/numpy/qpsolvers/cvxpy used by the discharged obligations (listed in evidence.trusted_base), floats as reals, CPython set/dict semantics, pyvc soundness, Lean kernel + Mathlib",
+    design_ref="DESIGN.md §3 C05",
+    explanation="vecMul_rows_of_linear / linear_agg_eq_vjp [L]; weighting contracts [P]",
+)
+reg(
+    "C06",
+    level="other",
+    technique="contract-based deductive verification: sidecar contracts on the real functions, VCs generated from the Python AST (pyvc) discharged by z3/cvc5, Lean 4 bridge lemmas; bounded run-time enforcement of the same contracts as stand-in for the undecided clauses",
+    text="Deductive part: heap contract of Accumulate (loop invariant, frame, storage ownership) [P]. Every obligation is regenerated from /repo's current AST on each run; what is not discharged is reported undecided. Bounded part (never counted as proved): seeded campaign enforcing the executable rendering of the contract on the real code with an independent oracle; floating-point clauses are decided only there.",
+    note="trusted: primitive contracts of torch/numpy/qpsolvers/cvxpy used by the discharged obligations (listed in evidence.trusted_base), floats as reals, CPython set/dict semantics, pyvc soundness, Lean kernel + Mathlib",
+    design_ref="DESIGN.md §3 C06",
+    explanation="heap contract of Accumulate (loop invariant, frame, storage ownership) [P]",
+)
+reg(
+    "C07",
+    level="other",
+    technique="contract-based deductive verification: sidecar contracts on the real functions, VCs generated from the Python AST (pyvc) discharged by z3/cvc5, Lean 4 bridge lemmas; bounded run-time enforcement of the same contracts as stand-in for the undecided clauses",
+    text="Deductive part: chunk-loop invariant and ghost sweep/vmap obligations of Jac._differentiate [P]. Every obligation is regenerated from /repo's current AST on each run; what is not discharged is reported undecided. Bounded part (never counted as proved): seeded campaign enforcing the executable rendering of the contract on the real code with an independent oracle; floating-point clauses are decided only there.",
+    note="trusted: primitive contracts of torch/numpy/qpsolvers/cvxpy used by the discharged obligations (listed in evidence.trusted_base), floats as reals, CPython set/dict semantics, pyvc soundness, Lean kernel + Mathlib",
+    design_ref="DESIGN.md §3 C07",
+    explanation="chunk-loop invariant and ghost sweep/vmap obligations of Jac._differentiate [P]",
+)
+reg(
+    "C08",
+    level="other",
+    technique="contract-based deductive verification: sidecar contracts on the real functions, VCs generated from the Python AST (pyvc) discharged by z3/cvc5, Lean 4 bridge lemmas; bounded run-time enforcement of the same contracts as stand-in for the undecided clauses",
+    text="Deductive part: gramAgg_* lemmas [L]; span / Gramian-only normal form of each weighting [P]. Every obligation is regenerated from /repo's current AST on each run; what is not discharged is reported undecided. Bounded part (never counted as proved): seeded campaign enforcing the executable rendering of the contract on the real code with an independent oracle; floating-point clauses are decided only there.",
+    note="trusted: primitive contracts of torch/numpy/qpsolvers/cvxpy used by the discharged obligations (listed in evidence.trusted_base), floats as reals, CPython set/dict semantics, pyvc soundness, Lean kernel + Mathlib",
+    design_ref="DESIGN.md §3 C08",
+    explanation="gramAgg_* lemmas [L]; span / Gramian-only normal form of each weighting [P]",
+)
+reg(
+    "C09",
+    level="other",
+    technique="contract-based deductive verification: sidecar contracts on the real functions, VCs generated from the Python AST (pyvc) discharged by z3/cvc5, Lean 4 bridge lemmas; bounded run-time enforcement of the same contracts as stand-in for the undecided clauses",
+    text="Deductive part: lin_const, lin_pcgrad, lin_config, qpmin_row_scaling [L]. Every obligation is regenerated from /repo's current AST on each run; what is not discharged is reported undecided. Bounded part (never counted as proved): seeded campaign enforcing the executable rendering of the contract on the real code with an independent oracle; floating-point clauses are decided only there.",
+    note="trusted: primitive contracts of torch/numpy/qpsolvers/cvxpy used by the discharged obligations (listed in evidence.trusted_base), floats as reals, CPython set/dict semantics, pyvc soundness, Lean kernel + Mathlib",
+    design_ref="DESIGN.md §3 C09",
+    explanation="lin_const, lin_pcgrad, lin_config, qpmin_row_scaling [L]",
+)
+reg(
+    "C10",
+    level="other",
+    technique="contract-based deductive verification: sidecar contracts on the real functions, VCs generated from the Python AST (pyvc) discharged by z3/cvc5, Lean 4 bridge lemmas; bounded run-time enforcement of the same contracts as stand-in for the undecided clauses",
+    text="Deductive part: gramAgg_perm_invariant, qpmin_perm [L]. Every obligation is regenerated from /repo's current AST on each run; what is not discharged is reported undecided. Bounded part (never counted as proved): seeded campaign enforcing the executable rendering of the contract on the real code with an independent oracle; floating-point clauses are decided only there.",
+    note="trusted: primitive contracts of torch/numpy/qpsolvers/cvxpy used by the discharged obligations (listed in evidence.trusted_base), floats as reals, CPython set/dict semantics, pyvc soundness, Lean kernel + Mathlib",
+    design_ref="DESIGN.md §3 C10",
+    explanation="gramAgg_perm_invariant, qpmin_perm [L]",
+)
+reg(
+    "C11",
+    level="other",
+    technique="contract-based deductive verification: sidecar contracts on the real functions, VCs generated from the Python AST (pyvc) discharged by z3/cvc5, Lean 4 bridge lemmas; bounded run-time enforcement of the same contracts as stand-in for the undecided clauses",
+    text="Deductive part: raises-iff / dtype / shape / stateless / frame obligations per aggregator [P]; gramAgg_homogeneous [L]. Every obligation is regenerated from /repo's current AST on each run; what is not discharged is reported undecided. Bounded part (never counted as proved): seeded campaign enforcing the executable rendering of the contract on the real code with an independent oracle; floating-point clauses are decided only there.",
+    note="trusted: primitive contracts of torch/numpy/qpsolvers/cvxpy used by the discharged obligations (listed in evidence.trusted_base), floats as reals, CPython set/dict semantics, pyvc soundness, Lean kernel + Mathlib",
+    design_ref="DESIGN.md §3 C11",
+    explanation="raises-iff / dtype / shape / stateless / frame obligations per aggregator [P]; gramAgg_homogeneous [L]",
+)
+reg(
+    "C12",
+    level="other",
+    technique="contract-based deductive verification: sidecar contracts on the real functions, VCs generated from the Python AST (pyvc) discharged by z3/cvc5, Lean 4 bridge lemmas; bounded run-time enforcement of the same contracts as stand-in for the undecided clauses",
+    text="Deductive part: bounded arm (BFS loop invariant pending). Every obligation is regenerated from /repo's current AST on each run; what is not discharged is reported undecided. Bounded part (never counted as proved): seeded campaign enforcing the executable rendering of the contract on the real code with an independent oracle; floating-point clauses are decided only there.",
+    note="trusted: primitive contracts of torch/numpy/qpsolvers/cvxpy used by the discharged obligations (listed in evidence.trusted_base), floats as reals, CPython set/dict semantics, pyvc soundness, Lean kernel + Mathlib",
+    design_ref="DESIGN.md §3 C12",
+    explanation="bounded arm (BFS loop invariant pending)",
+)
+reg(
+    "C13",
+    level="other",
+    technique="contract-based deductive verification: sidecar contracts on the real functions, VCs generated from the Python AST (pyvc) discharged by z3/cvc5, Lean 4 bridge lemmas; bounded run-time enforcement of the same contracts as stand-in for the undecided clauses",
+    text="Deductive part: retain_graph flag obligations of Jac (only the last sweep uses the caller's flag) [P]. Every obligation is regenerated from /repo's current AST on each run; what is not discharged is reported undecided. Bounded part (never counted as proved): seeded campaign enforcing the executable rendering of the contract on the real code with an independent oracle; floating-point clauses are decided only there.",
+    note="trusted: primitive contracts of torch/numpy/qpsolvers/cvxpy used by the discharged obligations (listed in evidence.trusted_base), floats as reals, CPython set/dict semantics, pyvc soundness, Lean kernel + Mathlib",
+    design_ref="DESIGN.md §3 C13",
+    explanation="retain_graph flag obligations of Jac (only the last sweep uses the caller's flag) [P]",
+)
+reg(
+    "C14",
+    level="other",
+    technique="contract-based deductive verification: sidecar contracts on the real functions, VCs generated from the Python AST (pyvc) discharged by z3/cvc5, Lean 4 bridge lemmas; bounded run-time enforcement of the same contracts as stand-in for the undecided clauses",
+    text="Deductive part: bounded/exhaustive arm (set-level contracts pending). Every obligation is regenerated from /repo's current AST on each run; what is not discharged is reported undecided. Bounded part (never counted as proved): seeded campaign enforcing the executable rendering of the contract on the real code with an independent oracle; floating-point clauses are decided only there.",
+    note="trusted: primitive contracts of torch/numpy/qpsolvers/cvxpy used by the discharged obligations (listed in evidence.trusted_base), floats as reals, CPython set/dict semantics, pyvc soundness, Lean kernel + Mathlib",
+    design_ref="DESIGN.md §3 C14",
+    explanation="bounded/exhaustive arm (set-level contracts pending)",
+)
+reg(
+    "C15",
+    level="other",
+    technique="contract-based deductive verification: sidecar contracts on the real functions, VCs generated from the Python AST (pyvc) discharged by z3/cvc5, Lean 4 bridge lemmas; bounded run-time enforcement of the same contracts as stand-in for the undecided clauses",
+    text="Deductive part: per-transform contracts: Init, Diagonalize (loop invariant), Jac (chunk loop invariant, vjp spec) [P]. Every obligation is regenerated from /repo's current AST on each run; what is not discharged is reported undecided. Bounded part (never counted as proved): seeded campaign enforcing the executable rendering of the contract on the real code with an independent oracle; floating-point clauses are decided only there.",
+    note="trusted: primitive contracts of torch/numpy/qpsolvers/cvxpy used by the discharged obligations (listed in evidence.trusted_base), floats as reals, CPython set/dict semantics, pyvc soundness, Lean kernel + Mathlib",
+    design_ref="DESIGN.md §3 C15",
+    explanation="per-transform contracts: Init, Diagonalize (loop invariant), Jac (chunk loop invariant, vjp spec) [P]",
+)
+reg(
+    "C16",
+    level="proof",
+    technique="contract-based deductive verification: sidecar contracts on the real functions, VCs generated from the Python AST (pyvc) discharged by z3/cvc5, Lean 4 bridge lemmas; bounded run-time enforcement of the same contracts as stand-in for the undecided clauses",
+    text="Deductive part: argument plumbing of TrimmedMean/Krum vs. spec terms, raises-iff [P]; trimmed_mean_bounds, trimmed_mean_robust, self_distance_first [L]. Every obligation is regenerated from /repo's current AST on each run; what is not discharged is reported undecided. Bounded part (never counted as proved): seeded campaign enforcing the executable rendering of the contract on the real code with an independent oracle; floating-point clauses are decided only there.",
+    note="trusted: primitive contracts of torch/numpy/qpsolvers/cvxpy used by the discharged obligations (listed in evidence.trusted_base), floats as reals, CPython set/dict semantics, pyvc soundness, Lean kernel + Mathlib",
+    design_ref="DESIGN.md §3 C16",
+    explanation="argument plumbing of TrimmedMean/Krum vs. spec terms, raises-iff [P]; trimmed_mean_bounds, trimmed_mean_robust, self_distance_first [L]",
+)
+reg(
+    "C17",
+    level="proof",
+    technique="contract-based deductive verification: sidecar contracts on the real functions, VCs generated from the Python AST (pyvc) discharged by z3/cvc5, Lean 4 bridge lemmas; bounded run-time enforcement of the same contracts as stand-in for the undecided clauses",
+    text="Deductive part: definitional postconditions of IMTL-G, ConFIG, Aligned-MTL [P]; imtlg_equal_proj, config_equal_cos, amtl_orthogonal [L]. Every obligation is regenerated from /repo's current AST on each run; what is not discharged is reported undecided. Bounded part (never counted as proved): seeded campaign enforcing the executable rendering of the contract on the real code with an independent oracle; floating-point clauses are decided only there.",
+    note="trusted: primitive contracts of torch/numpy/qpsolvers/cvxpy used by the discharged obligations (listed in evidence.trusted_base), floats as reals, CPython set/dict semantics, pyvc soundness, Lean kernel + Mathlib",
+    design_ref="DESIGN.md §3 C17",
+    explanation="definitional postconditions of IMTL-G, ConFIG, Aligned-MTL [P]; imtlg_equal_proj, config_equal_cos, amtl_orthogonal [L]",
+)
+reg(
+    "C18",
+    level="other",
+    technique="contract-based deductive verification: sidecar contracts on the real functions, VCs generated from the Python AST (pyvc) discharged by z3/cvc5, Lean 4 bridge lemmas; bounded run-time enforcement of the same contracts as stand-in for the undecided clauses",
+    text="Deductive part: softmax_simplex, cagrad_distance, mgda_step_descent, pcgrad_no_conflict [L]; definitional posts pending for loops. Every obligation is regenerated from /repo's current AST on each run; what is not discharged is reported undecided. Bounded part (never counted as proved): seeded campaign enforcing the executable rendering of the contract on the real code with an independent oracle; floating-point clauses are decided only there.",
+    note="trusted: primitive contracts of torch/numpy/qpsolvers/cvxpy used by the discharged obligations (listed in evidence.trusted_base), floats as reals, CPython set/dict semantics, pyvc soundness, Lean kernel + Mathlib",
+    design_ref="DESIGN.md §3 C18",
+    explanation="softmax_simplex, cagrad_distance, mgda_step_descent, pcgrad_no_conflict [L]; definitional posts pending for loops",
+)
+reg(
+    "C19",
+    level="other",
+    technique="contract-based deductive verification: sidecar contracts on the real functions, VCs generated from the Python AST (pyvc) discharged by z3/cvc5, Lean 4 bridge lemmas; bounded run-time enforcement of the same contracts as stand-in for the undecided clauses",
+    text="Deductive part: bounded/exhaustive arm (object-invariant obligations pending). Every obligation is regenerated from /repo's current AST on each run; what is not discharged is reported undecided. Bounded part (never counted as proved): seeded campaign enforcing the executable rendering of the contract on the real code with an independent oracle; floating-point clauses are decided only there.",
+    note="trusted: primitive contracts of torch/numpy/qpsolvers/cvxpy used by the discharged obligations (listed in evidence.trusted_base), floats as reals, CPython set/dict semantics, pyvc soundness, Lean kernel + Mathlib",
+    design_ref="DESIGN.md §3 C19",
+    explanation="bounded/exhaustive arm (object-invariant obligations pending)",
+)
+reg(
+    "C20",
+    level="other",
+    technique="contract-based deductive verification: sidecar contracts on the real functions, VCs generated from the Python AST (pyvc) discharged by z3/cvc5, Lean 4 bridge lemmas; bounded run-time enforcement of the same contracts as stand-in for the undecided clauses",
+    text="Deductive part: no-write-before-raise obligation of Accumulate [P]; bounded arm for the entry points. Every obligation is regenerated from /repo's current AST on each run; what is not discharged is reported undecided. Bounded part (never counted as proved): seeded campaign enforcing the executable rendering of the contract on the real code with an independent oracle; floating-point clauses are decided only there.",
+    note="trusted: primitive contracts of torch/numpy/qpsolvers/cvxpy used by the discharged obligations (listed in evidence.trusted_base), floats as reals, CPython set/dict semantics, pyvc soundness, Lean kernel + Mathlib",
+    design_ref="DESIGN.md §3 C20",
+    explanation="no-write-before-raise obligation of Accumulate [P]; bounded arm for the entry points",
 )
